@@ -361,6 +361,12 @@ def dedupAux {α : Type} (seen : List String) : List (String × α) → List (St
 
 def dedupByKey {α : Type} (l : List (String × α)) : List (String × α) := dedupAux [] l
 
+-- ------------------------------------------------------------------------------------------ windows under a filter
+open SqlglotModel.Bag in
+/-- a window function with PARTITION BY key: an aggregate of the rows of the input that share the row's key -/
+def winPart (key : Row → Val) (agg : Table → Val) (t : Table) (r : Row) : Val :=
+  agg (t.filter (fun x => key x == key r))
+
 -- ------------------------------------------------------------------------------------------ pushdown_projections
 /-- the disjuncts of the `if` that sets `parent_selections = {SELECT_ALL}` (no column may be pruned) -/
 inductive ProjAtom where
